@@ -547,7 +547,7 @@ func emit(out, jsonOut, repo string, table []*Wrapper, consts Consts, benign []*
 					b.WriteString(";")
 				}
 				nre++
-				fmt.Fprintf(&b, "\n  (%d, %s, %s)", id[l], coqStr(wr.Name), coqStr("F32"))
+				fmt.Fprintf(&b, "\n  (%d, %s, %s)", id[l], coqStr(wr.Name), coqStr("unlisted"))
 				jd.RaceExceptions = append(jd.RaceExceptions, [3]string{l, wr.Name, s.Acc[accOut{'w', l}]})
 			}
 		}
